@@ -260,6 +260,15 @@ pub fn gen_cases(mode: &str, tier: &str, seed: u64, out: &str) {
                 let f = *rng.pick(&[1e-2, 0.1, 0.5, 3.0, 10.0, 1e3]);
                 let sc = c.scale(f);
                 emit(&mut w, format!("h{}k{}-scaled", h, k), &sc, sp * f, at, st);
+                // explicit (radian) angle tolerance just wide enough for the allowed strain: one shear entry using the whole
+                // budget of the noise premise, angle tolerance 6..12 x the resulting change of the inter-axial angle
+                if k % 3 == 0 {
+                    let sp2 = *rng.pick(&[1e-3, 1e-2]);
+                    let (nz, dev) = c.noise_shear(&mut rng, 0.05 * sp2);
+                    let at2 = AngleTolerance::Radian(rng.uniform(6.0, 12.0) * dev);
+                    emit(&mut w, format!("h{}k{}-clean", h, k + 5000), &c, sp2, at2, st);
+                    emit(&mut w, format!("h{}k{}-noisy0", h, k + 5000), &nz, sp2, at2, st);
+                }
             }
         }
         // requested Hall setting (C10): matching type, own and re-described
